@@ -140,6 +140,7 @@ func Install(t *Tape) {
 		installed = true
 	}
 	cur = t
+	inRead = 0
 }
 
 // New makes a tape over a source.
@@ -156,11 +157,20 @@ func (t *Tape) Announce(n uint32) {
 // EndCall forgets the draw in progress (called by the harness between calls).
 func (t *Tape) EndCall() { t.announced = false; t.wordsIn = 0 }
 
+// InRead reports whether a tape is currently serving a Read call of the code
+// under test (the harness must not call back into the library then: the
+// library may hold a lock around its read).
+func InRead() bool { return inRead > 0 }
+
+var inRead int
+
 func (t *Tape) fill() error {
 	if t.Aborted {
 		panic(Abort{})
 	}
+	inRead++
 	w, err := t.Src.NextWord(t.bound, t.announced, t.wordsIn > 0)
+	inRead--
 	if err != nil {
 		if err == ErrDry {
 			t.Dry = true
